@@ -184,9 +184,53 @@ def _guard_one(args):
     return {"tag": tag}
 
 
+RACE_INV = "INVARIANTS RTypeOK CreditOnlyOpenQ"
+RACE_PROPS = "PROPERTIES NoCreditAfterClose"
+
+
+def _race_one(args):
+    """spec/C17_Race.tla (Check / Record split with closes interleaving): exhaustive check of the code's design,
+    every transition printed; the walks are the interference scripts of the gated replay."""
+    ctx, th, beh_dir = args
+    os.environ["JAVA_TOOL_OPTIONS"] = JAVA_OPTS
+    tag = "race_T%d" % th
+    cfg = tlc.subst_cfg("C17_Race.cfg", {"Thresh": th, "Emit": "TRUE"}, replace=[
+        ("INIT RInit", "INIT RMCInit"), ("VIEW RView", "VIEW RView\nACTION_CONSTRAINT REmitEdge")])
+    r = tlc.run(ctx, "C17_Race", "gen_%s_edges.cfg" % tag, cfg_text=cfg, workers=1, timeout=900, heap=HEAP, name="ed" + tag)
+    if not r.ok:
+        raise MachineryError("design-level failure in C17 %s: %s violated\n%s" % (tag, r.violated, r.out[-2500:]))
+    insts = [o for t, o in r.prints if t == "VFINST"]
+    g = graph.Graph(r.inits, r.edges)
+    if len(insts) != 1 or g.n_edges() == 0 or g.n_states() != r.distinct:
+        raise MachineryError("C17 %s: printed graph has %d states / %d edges, TLC found %d states"
+                             % (tag, g.n_states(), g.n_edges(), r.distinct))
+    # composites that matter: a record whose connection was closed AND removed while it was in flight
+    late = sum(1 for sk, op, _t in g.edges if op["name"] == "record"
+               and g.states[sk]["gone"][op["c"]] and op["o"] in insts[0]["addrs"])
+    walks = _covering_walks(g, ctx.seed, 40)
+    os.makedirs(os.path.join(beh_dir, "race"), exist_ok=True)
+    graph.write_behaviours(os.path.join(beh_dir, "race", tag + ".jsonl"), walks,
+                           {"inst": insts[0], "edges": g.n_edges(), "states": g.n_states()})
+    return {"tag": tag, "distinct": r.distinct, "generated": r.generated, "edges": g.n_edges(), "walks": len(walks),
+            "steps": sum(len(w["steps"]) for w in walks), "wall": r.wall, "late_records": late}
+
+
+def _race_guard(args):
+    """The variant that asks IsClosed before taking the lock must violate CreditOnlyOpenQ in the model."""
+    (ctx,) = args
+    os.environ["JAVA_TOOL_OPTIONS"] = JAVA_OPTS
+    cfg = tlc.subst_cfg("C17_Race.cfg", {"EarlyCheck": "TRUE"}, replace=[(RACE_INV, "INVARIANTS CreditOnlyOpenQ"),
+                                                                          (RACE_PROPS, "")])
+    r = tlc.run(ctx, "C17_Race", "gen_race_early.cfg", cfg_text=cfg, workers=1, timeout=300, heap=HEAP, name="graceearly")
+    if r.ok or r.violated != "CreditOnlyOpenQ":
+        raise MachineryError("vacuity guard: C17_Race does not distinguish the early IsClosed check (CreditOnlyOpenQ holds)")
+    return {"tag": "race_early"}
+
+
 def _job(a):
     kind, rest = a[0], a[1:]
-    return kind, {"print": _print_one, "mc": _mc_one, "guard": _guard_one}[kind](rest)
+    return kind, {"print": _print_one, "mc": _mc_one, "guard": _guard_one, "race": _race_one,
+                  "raceguard": _race_guard}[kind](rest)
 
 
 def run(ctx):
@@ -198,15 +242,19 @@ def run(ctx):
     mo = mc_only_instances(ctx)
     jobs = [("mc", ctx, i) for i in mo]                       # longest first
     jobs += [("print", ctx, i, beh_dir) for i in sorted(pr, key=lambda i: -len(i[0]))]
-    jobs += [("guard", ctx, g) for g in GUARDS]
+    jobs += [("race", ctx, th, beh_dir) for th in ((1, 2) if ctx.tier == "thorough" else (1,))]
+    jobs += [("guard", ctx, g) for g in GUARDS] + [("raceguard", ctx)]
     # at most 4 TLC worker threads at a time: every run uses one worker
     with cf.ProcessPoolExecutor(max_workers=4) as ex:
         results = list(ex.map(_job, jobs))
     log("C17: TLC + walks done at %.1fs" % ctx.wall())
     prints = [r for k, r in results if k == "print"]
     mcs = [r for k, r in results if k == "mc"]
-    states = sum(r["distinct"] for r in prints + mcs)
-    trans = sum(r["generated"] for r in prints + mcs)
+    races = [r for k, r in results if k == "race"]
+    if not all(r["late_records"] for r in races):
+        raise MachineryError("vacuous race behaviours: no record step after close+remove of its connection")
+    states = sum(r["distinct"] for r in prints + mcs + races)
+    trans = sum(r["generated"] for r in prints + mcs + races)
     edges_total = sum(r["edges"] for r in prints)
     n_walks = sum(r["walks"] for r in prints)
     facts = {}
@@ -226,6 +274,8 @@ def run(ctx):
                                  % (res["steps"], res["distinct"], edges_total))
         if not extra.get("default_threshold_steps"):
             raise MachineryError("no walk was replayed at the production threshold")
+        if not extra.get("race_composites_fired_inside_the_call") or not extra.get("race_quiescent_comparisons"):
+            raise MachineryError("the interference replay never fired inside a maybeRecordObservation call")
     log("C17: %d printed + %d mc-only instances, %d states, %d transitions generated, %d replay transitions, %d walks, "
         "%d steps (+%s at the production threshold)" % (len(prints), len(mcs), states, trans, edges_total, n_walks,
                                                         res["steps"], extra.get("default_threshold_steps")))
@@ -242,6 +292,14 @@ def run(ctx):
         default_threshold_steps=extra.get("default_threshold_steps"),
         default_ActivationThresh=extra.get("default_ActivationThresh"),
         steps_replayed_under_other_address_forms=extra.get("other_forms_steps", 0),
+        race={"instances": {r["tag"]: {k: r[k] for k in ("distinct", "generated", "edges", "walks", "wall", "late_records")}
+                            for r in races},
+              "callbacks_of_a_credited_observe": extra.get("race_callbacks_of_a_credited_observe"),
+              "walks_x_gate_positions": extra.get("race_walks"), "steps": extra.get("race_steps"),
+              "composites": extra.get("race_composites"),
+              "composites_fired_inside_the_call": extra.get("race_composites_fired_inside_the_call"),
+              "quiescent_comparisons": extra.get("race_quiescent_comparisons"),
+              "guard": "CreditOnlyOpenQ violated for EarlyCheck=TRUE"},
         steps_where_keeping_credit_after_filtered_report_matters=extra.get(
             "steps_where_keeping_credit_after_filtered_report_matters", 0),
         vacuity_guards=[g[3] + "@" + _tag(*g[:3]) for g in GUARDS], reached=facts,
@@ -256,6 +314,10 @@ def run(ctx):
         "a filtered report (loopback, NAT64, relayed, inconsistent transport) is taken as 'not received': the "
         "connection's earlier credited observation stays, as the code does; the other reading (the report changed, so "
         "it is withdrawn) is accepted too and would be reported as L2 divergence",
+        "concurrency is covered only as interference at the manager's callbacks into its environment (listenAddrs, "
+        "LocalMultiaddr, IsClosed, RemoteMultiaddr) during maybeRecordObservation, in the orders the gate can force "
+        "(actions needing o.mu while the call holds it run when it returns, as they would block in production); answers are "
+        "compared at quiescent states only",
         "manet.IsIPLoopback / IsNAT64IPv4ConvertedIPv6Addr decide the address classes for the concrete forms used",
     ]}
 
